@@ -142,7 +142,7 @@ Prefix(label, p) == Len(label) >= Len(p) /\ SubSeq(label, 1, Len(p)) = p
 PropsOf(sig, r) ==
      <<"C01">>
   \o (IF sig \in ShapeSigs \/ Prefix(r.cfg.label, "resume") THEN <<"C04">> ELSE <<>>)
-  \o (IF Prefix(r.cfg.label, "subsets") THEN <<"C07">> ELSE <<>>)
+  \o (IF Prefix(r.cfg.label, "subsets") \/ Prefix(r.cfg.label, "concurrent") THEN <<"C07">> ELSE <<>>)
   \o (IF \E i \in DOMAIN UProg(r) : UProg(r)[i].filter # <<>> THEN <<"C15">> ELSE <<>>)
   \o (IF Prefix(r.cfg.label, "faults") THEN <<"C16">> ELSE <<>>)
   \* C05 (liveness on the real code): a parallel request must terminate with the right outcome, never hang, fail or crash
